@@ -209,6 +209,22 @@ theorem C13_abandon_releases_stream_nowrap (N : Nat) (evs : List Ev) (hcount : a
         (ch.items[ch.taken]? = none → step s' (.recv c dl) = some (s', .closed)) :=
   C13_abandon_releases_stream _ (Acct.run N evs (freshRun_init N evs hcount)) (RouteInv.run N evs) i rest o t c hr hq ho hk hin hmem
 
+/-- … read to the end: after the Abandon of a search has been handled, the `k`-th following `next()` of its
+stream returns the `k`-th item that was still queued, in order, and the one after the last returns
+`EndOfStream` (`closed`) — the stream never pends again. -/
+theorem C13_abandoned_stream_drains (s : St) (ha : Acct s) (hri : RouteInv s) (i : Nat) (rest : List Nat) (o : Op) (t c : Nat)
+    (hr : s.drv = .running) (hq : s.opQ = i :: rest) (ho : s.ops[i]? = some o) (hk : o.kind = .abandon (t : Int))
+    (hin : s.inUse.contains o.id = true) (hmem : (t, c) ∈ s.searchmap)
+    (ch : Chan) (dl : Option Nat) (hc : s.chans[c]? = some ch) (hack : (s.ops[ch.opIdx]?.bind (·.res)) = some .ack)
+    (hrx : ch.rxAlive = true) :
+    ∃ s', step s (.drvOp true) = some (s', .none) ∧
+      (∀ (k : Nat) (it : Item), ch.items[ch.taken + k]? = some it →
+        ∃ s'', step (run s' (List.replicate k (.recv c dl))) (.recv c dl) = some (s'', .item (some it))) ∧
+      step (run s' (List.replicate (ch.items.length - ch.taken) (.recv c dl))) (.recv c dl) =
+        some (run s' (List.replicate (ch.items.length - ch.taken) (.recv c dl)), .closed) := by
+  obtain ⟨s', hs, hclosed, hcs, hres, _⟩ := drvOp_abandon_closes s ha hri i rest o t c hr hq ho hk hin hmem
+  exact ⟨s', hs, closed_channel_drains s' c ch dl (by rw [hcs]; exact hc) (resKeep_bind hres _ _ hack) hrx hclosed⟩
+
 /-- A stream dropped without `finish()` is collected at the next frame routed to it: when a search
 item (protocolOp 4, 19, 25) or a well-formed SearchResultDone arrives under the ID of a search whose
 receiver is gone (`rxAlive = false`: `tx.send` fails in the driver), the driver removes the search
@@ -347,7 +363,7 @@ example : ∀ (i : Nat) (o : Op), (run (init 100) sampleHistory).ops[i]? = some 
 example : (run (init 100) sampleHistory).ops.map (·.res) =
     [some (.frame ⟨1, 11, 7, true⟩), some .ack, some .timeout, some .ack] := by decide
 
-/-- `C13_abandon_releases_stream_nowrap`: a started search with one entry queued, then an Abandon naming it is
+/-- `C13_abandon_releases_stream(_nowrap)`, `C13_abandoned_stream_drains`: a started search with one entry queued, then an Abandon naming it is
 queued; the hypotheses hold, and after the driver's step the stream reads its entry and then `closed` -/
 def abandonSearchHistory : List Ev :=
   [.alloc .search, .enqueue 0 none, .drvOp true, .poll 0, .srvSend ⟨1, 4, 8, false⟩, .drvResp,
